@@ -742,3 +742,113 @@ Proof.
       * cbn [map hd_error prepend m]. apply (parse_match_dtf f [] None Hwf). reflexivity.
       * reflexivity.
 Qed.
+
+(** ---- Date._offset_re: DATE (OFFSET|Z) \Z ---- *)
+Lemma m_alt a b s e : m (RAlt a b) s e = m a s e ++ m b s e.
+Proof. reflexivity. Qed.
+
+Definition date_env (ys ms ds : text) (e : env) : env :=
+  (g_day, ds) :: (g_month, ms) :: (g_year, ys) :: e.
+
+Lemma m_date_tail s1 e :
+  hd_error (m (RSeq (RGroup g_4 (RAlt ref_OFFSET (lit 90))) REnd) s1 e) =
+  if text_eqb s1 [90] then Some ([90], [], (g_4, [90]) :: e)
+  else match scan_offset_t s1 with
+       | Some (h, mm, []) =>
+           Some (h ++ [58] ++ mm, [], (g_4, h ++ [58] ++ mm) :: (g_tz_min, mm) :: (g_tz_hr, h) :: e)
+       | _ => None
+       end.
+Proof.
+  rewrite m_seq, m_group, m_alt, m_ref_OFFSET, m_lit.
+  destruct (scan_offset_t s1) as [[[h mm] r]|] eqn:Eo.
+  - assert (Hz : text_eqb s1 [90] = false).
+    { destruct (scan_offset_t_spec _ _ _ _ Eo) as (c & hh & -> & Hc & _).
+      unfold scan_offset_t in Eo. destruct s1 as [|x y]; [discriminate|].
+      destruct ((x =? 43) || (x =? 45)) eqn:Ex; [|discriminate].
+      cbn [text_eqb]. replace (x =? 90) with false by lia. reflexivity. }
+    rewrite Hz. destruct s1 as [|x y]; [discriminate Eo|].
+    replace (x =? 90) with false.
+    2:{ unfold scan_offset_t in Eo. destruct ((x =? 43) || (x =? 45)) eqn:Ex; [lia|discriminate]. }
+    cbn [app map flat_map m]. destruct r; [|reflexivity]. cbn [map prepend app hd_error].
+    rewrite !app_nil_r. reflexivity.
+  - cbn [app]. destruct s1 as [|x y]; [reflexivity|]. cbn [text_eqb].
+    destruct (x =? 90) eqn:Ex; [|reflexivity]. apply Z.eqb_eq in Ex. subst x.
+    cbn [map flat_map m]. destruct y; reflexivity.
+Qed.
+
+Lemma m_ref_date_offset_hd s :
+  re_match ref_date_offset s =
+  match scan_date_t s with
+  | Some (ys, ms, ds, s1) =>
+      option_map (prepend (ys ++ [45] ++ ms ++ [45] ++ ds))
+        (hd_error (m (RSeq (RGroup g_4 (RAlt ref_OFFSET (lit 90))) REnd) s1 (date_env ys ms ds [])))
+  | None => None
+  end.
+Proof.
+  rewrite re_match_hd. unfold ref_date_offset. rewrite rseq_app_sound, m_seq, m_ref_DATE.
+  destruct (scan_date_t s) as [[[[ys ms] ds] s1]|]; [|reflexivity].
+  cbn [flat_map]. rewrite app_nil_r, hd_error_map. reflexivity.
+Qed.
+
+Theorem scan_date_tz_ref s : scan_date_tz s = rx_scan_date_tz ref_date_offset s.
+Proof.
+  unfold scan_date_tz, rx_scan_date_tz, obind. rewrite scan_date_text, m_ref_date_offset_hd.
+  destruct (scan_date_t s) as [[[[ys ms] ds] s1]|]; [|reflexivity].
+  rewrite match_z, m_date_tail, scan_offset_text.
+  destruct (text_eqb s1 [90]); [reflexivity|].
+  destruct (scan_offset_t s1) as [[[h mm] r]|]; [|destruct s1; reflexivity].
+  destruct r; destruct s1; reflexivity.
+Qed.
+
+Theorem date_reader_ref s : date_from_unicode_rx ref_date_offset s = date_from_unicode s.
+Proof.
+  unfold date_from_unicode_rx, date_from_unicode. destruct (strptime_ymd s); [reflexivity|].
+  unfold scan_date_tz, obind. rewrite scan_date_text, m_ref_date_offset_hd.
+  destruct (scan_date_t s) as [[[[ys ms] ds] s1]|] eqn:Ed; [|reflexivity].
+  destruct (scan_date_t_spec _ _ _ _ _ Ed) as (Hy & Hmo & Hd).
+  rewrite match_z, m_date_tail, scan_offset_text.
+  assert (G : forall e0, (forall n, In n [g_year; g_month; g_day] ->
+                 lookup n (e0 ++ date_env ys ms ds []) = lookup n (date_env ys ms ds [])) ->
+            (do y <- gint (e0 ++ date_env ys ms ds []) g_year;
+             do mo <- gint (e0 ++ date_env ys ms ds []) g_month;
+             do d <- gint (e0 ++ date_env ys ms ds []) g_day;
+             let v := mkdate y mo d in if valid_date v then Ok v else VFault) =
+            (if valid_date (mkdate (val_digits 0 ys) (val_digits 0 ms) (val_digits 0 ds))
+             then Ok (mkdate (val_digits 0 ys) (val_digits 0 ms) (val_digits 0 ds)) else VFault)).
+  { intros e0 Hl.
+    rewrite (gint_digits _ g_year ys); [|rewrite Hl by (cbn; tauto); reflexivity|apply Hy|eapply dig_group_ne; apply Hy].
+    rewrite (gint_digits _ g_month ms); [|rewrite Hl by (cbn; tauto); reflexivity|apply Hmo|eapply dig_group_ne; apply Hmo].
+    rewrite (gint_digits _ g_day ds); [|rewrite Hl by (cbn; tauto); reflexivity|apply Hd|eapply dig_group_ne; apply Hd].
+    reflexivity. }
+  destruct (text_eqb s1 [90]).
+  - cbn [option_map prepend]. apply (G [(g_4, [90])]).
+    intros n Hin. cbn [In] in Hin. destruct Hin as [<-|[<-|[<-|[]]]]; reflexivity.
+  - destruct (scan_offset_t s1) as [[[h mm] r]|] eqn:Eo; [|destruct s1; reflexivity].
+    destruct r; [|destruct s1; reflexivity].
+    destruct s1 as [|x y]; [discriminate Eo|]. cbn [option_map prepend].
+    apply (G [(g_4, h ++ [58] ++ mm); (g_tz_min, mm); (g_tz_hr, h)]).
+    intros n Hin. cbn [In] in Hin. destruct Hin as [<-|[<-|[<-|[]]]]; reflexivity.
+Qed.
+
+(** ---- time_from_unicode over _time_re ---- *)
+Theorem time_reader_ref s : time_from_unicode_rx ref_TIME s = time_from_unicode s.
+Proof.
+  unfold time_from_unicode_rx, time_from_unicode. rewrite scan_time_text, re_match_hd. unfold ref_TIME.
+  rewrite rseq_app_sound, m_seq, m_ref_HMS.
+  destruct (scan_hms_t s) as [[[[h mi] x] r]|] eqn:Eh; [|reflexivity].
+  destruct (scan_hms_t_spec _ _ _ _ _ Eh) as (Hh & Hmi & Hx).
+  cbn [flat_map]. rewrite app_nil_r, hd_error_map, m_fracopt_head.
+  destruct (scan_frac r) as [[fd|] r'] eqn:Ef; cbn [option_map prepend].
+  - destruct (scan_frac_some_digits _ _ _ Ef) as [Ha Hn].
+    cbn [lookup text_eqb g_sec_frac Z.eqb Pos.eqb andb usec_group]. rewrite Ha.
+    destruct fd as [|d0 fd]; [congruence|]. cbn [negb andb bind].
+    rewrite (gint_digits _ g_hr h); [|reflexivity|apply Hh|eapply dig_group_ne; apply Hh].
+    rewrite (gint_digits _ g_min mi); [|reflexivity|apply Hmi|eapply dig_group_ne; apply Hmi].
+    rewrite (gint_digits _ g_sec x); [|reflexivity|apply Hx|eapply dig_group_ne; apply Hx].
+    reflexivity.
+  - cbn [lookup text_eqb g_sec_frac g_sec g_min g_hr Z.eqb Pos.eqb andb bind].
+    rewrite (gint_digits _ g_hr h); [|reflexivity|apply Hh|eapply dig_group_ne; apply Hh].
+    rewrite (gint_digits _ g_min mi); [|reflexivity|apply Hmi|eapply dig_group_ne; apply Hmi].
+    rewrite (gint_digits _ g_sec x); [|reflexivity|apply Hx|eapply dig_group_ne; apply Hx].
+    reflexivity.
+Qed.
